@@ -234,8 +234,19 @@ impl Future for BatchFut {
                 }
                 match ret {
                     Ret::Ok => Poll::Ready(Ok(())),
+                    // how the processor BUILDS its error is part of the domain (every public constructor route of
+                    // BatchError; chosen from the case data so that it replays): retry(..) directly, a non-retryable
+                    // error made retryable by map_retryable (documented: "the resulting batch is retryable if `f`
+                    // returns Some"), or a retryable one whose batch is replaced
                     Ret::Err => Poll::Ready(Err(BatchError::no_retry(ScriptErr))),
-                    Ret::Retry(rem) => Poll::Ready(Err(BatchError::retry(ScriptErr, Ch(rem)))),
+                    Ret::Retry(rem) => Poll::Ready(Err(match rem.len() % 3 {
+                        0 => BatchError::retry(ScriptErr, Ch(rem)),
+                        1 => BatchError::<()>::no_retry(ScriptErr).map_retryable(|none| {
+                            debug_assert!(none.is_none());
+                            Some(Ch(rem))
+                        }),
+                        _ => BatchError::retry(ScriptErr, Ch(vec![u64::MAX])).map_retryable(|some| some.map(|_| Ch(rem))),
+                    })),
                     Ret::Panic => panic!("scripted panic in batch future"),
                 }
             }
